@@ -18,6 +18,27 @@ class FnFail(Exception):
     pass
 
 
+class FnFailBase(BaseException):
+    pass
+
+
+# classes a mapped function may raise in the scheduled runs ("raises anything"): 'Empty' is resolved in the namespace
+# of parallel_utils at raise time (queue.Empty there - the shim's class under the controlled scheduler)
+EXC_KINDS = ['FnFail', 'FnFail', 'Empty', 'KeyError', 'FnFailBase', 'CancelledError', 'TimeoutError']
+
+
+def exc_class(pu, kind):
+    import concurrent.futures
+    if kind == 'Empty':
+        return pu.queue.Empty
+    return {'FnFail': FnFail, 'KeyError': KeyError, 'FnFailBase': FnFailBase, 'CancelledError': concurrent.futures.CancelledError,
+            'TimeoutError': concurrent.futures.TimeoutError}[kind]
+
+
+def exc_names(kind):
+    return {'Empty': ('Empty', 'ShimEmpty')}.get(kind, (kind,))
+
+
 class Src:
     """source iterable: ('ok', v) | ('fail', is_exception, tag); advancing it is a yield point"""
     def __init__(self, s, spec):
@@ -206,8 +227,8 @@ def st_direct(run):
 
 # ------------------------------------------------------------------ lazy_parallel_map (thread backend)
 class Fn:
-    def __init__(self, s, bad):
-        self.s, self.bad = s, set(bad)
+    def __init__(self, s, bad, pu=None, exc_kind='FnFail'):
+        self.s, self.bad, self.pu, self.exc_kind = s, set(bad), pu, exc_kind
         self.calls = []
         self.ended = False
         self.calls_after_end = 0
@@ -217,15 +238,15 @@ class Fn:
         if self.ended:
             self.calls_after_end += 1
         if v in self.bad:
-            raise FnFail(Tag(v))
+            raise exc_class(self.pu, self.exc_kind)(Tag(v))
         return 10 * v + 1
 
 
-def run_pool(pu, spec, B, W, bad, script, schedule, rng, wall=20.0, fallback='random'):
+def run_pool(pu, spec, B, W, bad, script, schedule, rng, wall=20.0, fallback='random', exc_kind='FnFail'):
     s = S.Sched(schedule, rng, wall, fallback)
     undo = S.install(pu, s)
     src = Src(s, spec)
-    fn = Fn(s, bad)
+    fn = Fn(s, bad, pu, exc_kind)
     delivered, outcome = [], None
     K = None if script[0] == 'exhaust' else script[1]
     old_trace = sys.gettrace()
@@ -279,7 +300,7 @@ def run_pool(pu, spec, B, W, bad, script, schedule, rng, wall=20.0, fallback='ra
         s.cv.notify_all()
     for t in s.os_threads:
         t.join(2.0)
-    return dict(kind='pool', spec=spec, B=B, W=W, bad=sorted(bad), script=script, schedule=list(schedule), choices=s.choices, enabled_log=s.enabled_log,
+    return dict(kind='pool', spec=spec, B=B, W=W, bad=sorted(bad), exc_kind=exc_kind, script=script, schedule=list(schedule), choices=s.choices, enabled_log=s.enabled_log,
                 log=s.log, delivered=delivered, outcome=outcome, calls=fn.calls, calls_after_end=fn.calls_after_end,
                 pulls_after_end=src.pulls_after_end, threads_alive=sum(t.is_alive() for t in s.os_threads), K=K)
 
@@ -359,7 +380,7 @@ def pool_direct(run):
     lim = args if src_fail is None else args[:max(0, len(args) - B)]
     for a in lim:
         if a in bad:
-            seq_err = ('raised', 'FnFail', a)
+            seq_err = ('raised', run.get('exc_kind', 'FnFail'), a)
             break
         seq.append(10 * a + 1)
     if seq_err is None:
@@ -367,7 +388,10 @@ def pool_direct(run):
     if run['delivered'] != [10 * a + 1 for a in args][:len(run['delivered'])]:
         fails.append(('C04', f'delivered {run["delivered"]} is not an in-order prefix of the mapped source'))
     if run['K'] is None:
-        if run['delivered'] != seq or out != seq_err:
+        out_n = out
+        if out and out[0] == 'raised' and seq_err[0] == 'raised' and out[1] in exc_names(seq_err[1]):
+            out_n = ('raised', seq_err[1], out[2])
+        if run['delivered'] != seq or out_n != seq_err:
             p = 'C06' if (seq_err[0] == 'raised') else 'C04'
             fails.append((p, f'got {run["delivered"]} then {out}; sequential semantics give {seq} then {seq_err}'))
     if len(run['calls']) != len(set(run['calls'])):
@@ -522,7 +546,7 @@ def pool_summary_ok(run, sm):
 
 # ------------------------------------------------------------------ the engine shared by C04..C07
 def _cfg_key(run):
-    return (run['kind'], tuple(run['spec']), run['B'], run.get('W'), tuple(run.get('bad', ())), run['script'])
+    return (run['kind'], tuple(run['spec']), run['B'], run.get('W'), tuple(run.get('bad', ())), run.get('exc_kind'), run['script'])
 
 
 def _log_key(run):
@@ -550,7 +574,13 @@ def run_e(prop, tier, n_st=350, n_pool=350, dfs_budget=500, long_runs=30):
         oks = [e[1] for e in spec if e[0] == 'ok']
         bad = [v for v in oks if r.random() < 0.12]
         script = r.choice([('exhaust',), ('exhaust',), ('close', r.randint(0, len(oks) + 1)), ('drop', r.randint(0, len(oks) + 1))])
-        runs.append(run_pool(pu, spec, B, W, bad, script, gen_schedule(r, ['C'] + [f'X{i}' for i in range(W)], 300), r))
+        runs.append(run_pool(pu, spec, B, W, bad, script, gen_schedule(r, ['C'] + [f'X{i}' for i in range(W)], 300), r, exc_kind=r.choice(EXC_KINDS)))
+    # -- every exception class at every position (fill phase and drain phase of the pool)
+    for kind in sorted(set(EXC_KINDS)):
+        for pos in range(1, 5):
+            W = r.choice([1, 2]); B = r.choice([W, W, W + 1])
+            runs.append(run_pool(pu, [('ok', i + 1) for i in range(4)], B, W, [pos], ('exhaust',),
+                                 gen_schedule(r, ['C'] + [f'X{i}' for i in range(W)], 200), r, exc_kind=kind))
     # -- lengths well above the buffer size, consumers that stall
     for _ in range(long_runs):
         n = r.randint(15, 40)
@@ -648,7 +678,7 @@ def run_e(prop, tier, n_st=350, n_pool=350, dfs_budget=500, long_runs=30):
 
 
 def _run_json(run):
-    return dict(kind=run['kind'], spec=run['spec'], B=run['B'], W=run.get('W'), bad=run.get('bad'), script=run['script'],
+    return dict(kind=run['kind'], spec=run['spec'], B=run['B'], W=run.get('W'), bad=run.get('bad'), exc_kind=run.get('exc_kind'), script=run['script'],
                 choices=run['choices'], outcome=run['outcome'], delivered=run['delivered'],
                 log=[(t, e, 'S' if is_sentinel(p) else p) for t, e, p in run['log']])
 
@@ -664,7 +694,7 @@ def replay_e(payload, prop):
         fs = st_direct(run)
         expr = coq_st_case(run)
     else:
-        run = run_pool(pu, spec, c['B'], c['W'], c['bad'], tuple(c['script']), c['choices'], r, fallback='first')
+        run = run_pool(pu, spec, c['B'], c['W'], c['bad'], tuple(c['script']), c['choices'], r, fallback='first', exc_kind=c.get('exc_kind') or 'FnFail')
         fs = pool_direct(run)
         expr = coq_pool_case(run)
     res = eval_cases([expr], 'replay_e')[0]
@@ -677,60 +707,124 @@ def replay_e(payload, prop):
 
 
 # ------------------------------------------------------------------ real executors / process backends (functional comparison only)
-def _plus1(x):
-    return x + 1
+class BFn:
+    """picklable mapped function for the un-instrumented runs: table x -> ('val', v) | ('raise', class name)"""
+    def __init__(self, table):
+        self.table = table
+
+    def __call__(self, x):
+        e = self.table.get(x)
+        if e is None:
+            return x + 1
+        if e[0] == 'val':
+            return e[1]
+        raise bexc(e[1])(Tag(x))
 
 
-def _boom_at3(x):
-    if x == 3:
-        raise FnFail(Tag(3))
-    return x + 1
+def bexc(name):
+    import queue, concurrent.futures, lazy_dataset
+    return {'FnFail': FnFail, 'Empty': queue.Empty, 'KeyError': KeyError, 'FilterException': lazy_dataset.FilterException,
+            'FnFailBase': FnFailBase, 'CancelledError': concurrent.futures.CancelledError, 'IndexError': IndexError,
+            'StopAsyncIteration': StopAsyncIteration}[name]
+
+
+def b_reference(n, table, catch):
+    """sequential semantics: the delivered values and the error that ends the stream (None = normal end)"""
+    out = []
+    for x in range(n):
+        e = table.get(x)
+        if e is None:
+            out.append(x + 1)
+        elif e[0] == 'val':
+            out.append(e[1])
+        elif catch and issubclass(bexc(e[1]), catch):
+            continue
+        else:
+            return out, (e[1], x)
+    return out, None
+
+
+def b_observe(make):
+    got, err = [], None
+    try:
+        for x in make():
+            got.append(x)
+    except BaseException as e:  # noqa
+        if isinstance(e, (KeyboardInterrupt, SystemExit)):
+            raise
+        nm = type(e).__name__
+        err = (nm, e.args[0].t if e.args and isinstance(e.args[0], Tag) else None)
+    return got, err
 
 
 def backend_checks(ld, r, tier, prop):
-    """un-instrumented runs of every backend: delivered examples / order / length / error position equal the
-    sequential pipeline (no schedule control: the OS decides)"""
+    """un-instrumented runs of every backend (no schedule control: the OS decides): delivered examples / order / length /
+    error class and position equal the sequential semantics - for functions returning None / falsy values, raising any of
+    several exception classes at every position (fill phase and drain phase), with and without catch_filter_exception"""
     import warnings
     fails, runs = [], 0
-    backends = ['t', 'concurrent_mp'] if tier == 'quick' else ['t', 'mp', 'dill_mp', 'multiprocessing', 'concurrent_mp']
-    lengths = [0, 1, 5] if tier == 'quick' else [0, 1, 2, 7, 23, 40]
+    quick = tier == 'quick'
+    backends = ['t', 'concurrent_mp'] if quick else ['t', 'mp', 'dill_mp', 'multiprocessing', 'concurrent_mp']
+    classes = ['FnFail', 'Empty', 'KeyError', 'FilterException', 'FnFailBase', 'CancelledError', 'IndexError', 'StopAsyncIteration']
     with warnings.catch_warnings():
         warnings.simplefilter('ignore')
         for be in backends:
-            for n in lengths:
-                for w, b in ([(2, 2)] if tier == 'quick' else [(1, 1), (2, 2), (2, 4), (3, 3), (3, 4)]):
-                    if be == 't' and w == 1:
-                        pass
-                    src = ld.new({f'k{i:02d}': i for i in range(n)})
-                    seq = [x + 1 for x in range(n)]
-                    runs += 2
-                    try:
-                        got = list(src.map(_plus1).prefetch(w, b, backend=be))
-                        ln = len(src.map(_plus1).prefetch(w, b, backend=be))
-                        got2 = list(src.map(_plus1, num_workers=w, buffer_size=b, backend=be))
-                        if prop == 'C04' and (got != seq or got2 != seq or ln != n):
-                            fails.append(f'backend {be} w={w} b={b} n={n}: prefetch {got} / parallel map {got2} / len {ln}, sequential {seq}')
-                        if prop == 'C04' and be == 't':
-                            gk = list(src.map(_plus1).prefetch(w, b, backend=be).items()) if w == 1 else None
-                            if gk is not None and gk != [(f'k{i:02d}', i + 1) for i in range(n)]:
-                                fails.append(f'backend t w=1: items() behind prefetch gave {gk}')
-                    except Exception as e:
-                        fails.append(f'backend {be} w={w} b={b} n={n}: raised {type(e).__name__}: {e}')
-                    if prop == 'C06' and n > 3:
-                        for variant in ('prefetch', 'parmap'):
-                            got, err = [], None
-                            try:
-                                it = src.map(_boom_at3).prefetch(w, b, backend=be) if variant == 'prefetch' else \
-                                    src.map(_boom_at3, num_workers=w, buffer_size=b, backend=be)
-                                for x in it:
-                                    got.append(x)
-                            except FnFail as e:
-                                err = e.args[0].t if e.args and isinstance(e.args[0], Tag) else 'untagged'
-                            except Exception as e:
-                                err = type(e).__name__
+            thread = be == 't'
+            cfgs = [(2, 2), (2, 3)] if quick else [(1, 1), (2, 2), (2, 4), (3, 3), (3, 4)]
+            lengths = ([0, 1, 5] if quick else [0, 1, 2, 7, 23]) if prop == 'C04' else ([5] if quick else [4, 9])
+            for (w, b) in cfgs:
+                for n in lengths:
+                    tables = []
+                    if prop == 'C04':
+                        tables.append(({}, None))
+                        for _ in range(2 if quick else 5):
+                            t = {x: ('val', r.choice([None, None, 0, '', (), False])) for x in range(n) if r.random() < 0.4}
+                            tables.append((t, None))
+                            tables.append((t, True))
+                    else:
+                        # a hard failure of every class at every position (thread backend) / a sample (process pools)
+                        combos = [(c, p) for c in classes for p in range(n)]
+                        if not thread:
+                            combos = [cp for cp in combos if cp[0] != 'FnFailBase']      # multiprocessing.Pool workers die on BaseException
+                            combos = r.sample(combos, 3 if quick else 8)
+                        elif quick:
+                            combos = [cp for cp in combos if cp[1] in (0, n - 2, n - 1) or r.random() < 0.3]
+                        for (c, p) in combos:
+                            t = {p: ('raise', c)}
+                            for x in range(n):
+                                if x != p and r.random() < 0.25:
+                                    t[x] = r.choice([('raise', 'FilterException'), ('val', None), ('raise', 'FilterException')])
+                            tables.append((t, r.choice([None, True, True, (KeyError,), (ld.FilterException, IndexError)])))
+                    for (t, catch) in tables:
+                        if catch is not None and be in ('concurrent_mp', 'multiprocessing'):
+                            continue        # plain pickle cannot transfer the local catcher function: refused loudly (AttributeError) before any example
+                        src = ld.new({f'k{i:02d}': i for i in range(n)})
+                        fn = BFn(t)
+                        ctypes = None if catch is None else ((ld.FilterException,) if catch is True else tuple(catch))
+                        exp = b_reference(n, t, ctypes)
+                        variants = [('prefetch', lambda: src.map(fn).prefetch(w, b, backend=be, catch_filter_exception=catch))]
+                        if catch is None:
+                            variants.append(('parmap', lambda: src.map(fn, num_workers=w, buffer_size=b, backend=be)))
+                        for name, make in variants:
                             runs += 1
-                            if got != [1, 2, 3] or err != 3:
-                                fails.append(f'backend {be} {variant} w={w} b={b}: function fails at position 3: consumer got {got} then {err!r}')
+                            got = b_observe(make)
+                            if got[1] is not None and exp[1] is not None and got[1][0] == exp[1][0] and got[1][1] is None:
+                                got = (got[0], exp[1])       # some pools rebuild the exception without its argument
+                            if got != exp:
+                                fails.append(f'backend {be} {name} num_workers={w} buffer_size={b} n={n} catch={catch} function table {t}: '
+                                             f'consumer got {got[0]} then {got[1]}; sequential semantics give {exp[0]} then {exp[1]}')
+                        if prop == 'C04' and catch is None:
+                            runs += 1
+                            try:
+                                ln = len(src.map(fn).prefetch(w, b, backend=be))
+                                if ln != n:
+                                    fails.append(f'backend {be} w={w} b={b} n={n}: len {ln}')
+                                if thread and w == 1:
+                                    gk = list(src.map(fn).prefetch(w, b, backend=be).items())
+                                    if gk != [(f'k{i:02d}', v) for i, v in enumerate(exp[0])]:
+                                        fails.append(f'backend t w=1: items() behind prefetch gave {gk}')
+                            except Exception as e:
+                                fails.append(f'backend {be} w={w} b={b} n={n}: len / items raised {type(e).__name__}: {e}')
     return fails, runs
 
 
